@@ -377,11 +377,19 @@ func c08Check(r *vcore.Run) vcore.Coverage {
 	}
 	directed := c08Directed(u)
 	gen := c08Generated(u, r.Thorough())
-	var execs, points int64
+	var execs, points, preempted int64
 	complete := true
 	var notes []map[string]any
+	countPre := func(st vsched.Stats) {
+		for k, n := range st.Preemptions {
+			if k > 0 {
+				preempted += n
+			}
+		}
+	}
 	for i, h := range directed {
 		st := c08Explore(r, h, -1, false, 5*time.Minute)
+		countPre(st)
 		if i == 0 && st.Executions < 2 {
 			r.Violate("sched", "C08/HARNESS-ERROR/instrumentation", "probe", "ocimem mutexes are scheduling points", "only one schedule explored: the sync import of ocimem is not instrumented")
 			return vcore.Coverage{}
@@ -394,6 +402,7 @@ func c08Check(r *vcore.Run) vcore.Coverage {
 	var gexec int64
 	for _, h := range gen {
 		st := c08Explore(r, h, 2, false, time.Minute)
+		countPre(st)
 		execs += st.Executions
 		gexec += st.Executions
 		points += st.Points
@@ -411,8 +420,8 @@ func c08Check(r *vcore.Run) vcore.Coverage {
 		"scheduling points at mutex lock operations and thread start/exit (sound for data-race-free executions; races are searched for separately on every explored schedule with the futex parker, whose hand-offs are invisible to the race detector)",
 		"linearizability is decided by brute force over all real-time-respecting total orders against the C02 reference model (three-valued where the statement is silent)",
 	}
-	return vcore.Coverage{States: execs, Transitions: points, TracesImpl: execs + raceExecs, Evaluations: execs + raceExecs, Nontrivial: execs, Exhaustive: complete,
-		Rule: fmt.Sprintf("%d directed harnesses over ALL schedules + %d generated programs (2 threads x 1 op; thorough also 3x1 and 2+1) with <= 2 preemptions; every schedule checked for linearizability (logic mode) and re-explored under -race with the invisible parker; states = complete schedules, transitions = scheduling points", len(directed), len(gen))}
+	return vcore.Coverage{States: execs, Transitions: points, TracesImpl: execs + raceExecs, Evaluations: execs + raceExecs, Nontrivial: preempted, Exhaustive: complete,
+		Rule: fmt.Sprintf("non-trivial = logic-mode schedules with at least one preemption (measured); %d directed harnesses over ALL schedules + %d generated programs (2 threads x 1 op; thorough also 3x1 and 2+1) with <= 2 preemptions; every schedule checked for linearizability (logic mode) and re-explored under -race with the invisible parker; states = complete schedules, transitions = scheduling points", len(directed), len(gen))}
 }
 
 // c08RaceWorkers shards harnesses over subprocesses of the -race binary.
